@@ -31,6 +31,8 @@ func main() {
 		os.Exit(runCheck(*prop, *tier))
 	case "fn":
 		os.Exit(debugFn(os.Args[2], os.Args[3:]))
+	case "wk":
+		os.Exit(debugWK(os.Args[2], os.Args[3]))
 	case "replay":
 		os.Exit(runReplay(os.Args[2:]))
 	default:
@@ -87,4 +89,25 @@ func debugFn(pkgSuffix string, keys []string) int {
 		}
 	}
 	return rc
+}
+
+func debugWK(pkgSuffix, key string) int {
+	w, err := loadWorld("./...")
+	if err != nil {
+		fmt.Fprintln(os.Stderr, err)
+		return 2
+	}
+	for path := range w.SSAPkgs {
+		if !strings.HasSuffix(path, pkgSuffix) || !strings.HasPrefix(path, modPath) {
+			continue
+		}
+		fn := w.lookupFunc(path, key)
+		if fn == nil {
+			continue
+		}
+		for _, k := range sortedKeys(w.writeKeys(fn)) {
+			fmt.Println(k)
+		}
+	}
+	return 0
 }
